@@ -929,7 +929,8 @@ func (h c17Handler) Handle(resp tq.Response, req tq.Request) {
 
 var c17Key = []byte("c17-key")
 
-// c17Scripts: all environment scripts of length <= n over {C connect, F full packet, P partial packet, D fire read deadline, X cancel, A fire accept deadline}
+// c17Scripts: all environment scripts of length <= n over {C connect, F full packet, G full packet and the first octets of the next one in ONE segment,
+// P partial packet, D fire read deadline, X cancel, A fire accept deadline}
 func c17Scripts(n int) [][]string {
 	var out [][]string
 	var rec func(cur []string, conns int, cancelled bool)
@@ -944,7 +945,7 @@ func c17Scripts(n int) [][]string {
 			rec(append(cur, "C"), conns+1, cancelled)
 		}
 		for i := 0; i < conns; i++ {
-			for _, k := range []string{"F", "P", "D"} {
+			for _, k := range []string{"F", "P", "D", "G"} {
 				rec(append(cur, fmt.Sprintf("%s%d", k, i)), conns, cancelled)
 			}
 		}
@@ -995,10 +996,10 @@ func c17Body(script []string, pending, patient bool, proxy ...bool) func(x *sx) 
 			}
 		}
 		for _, ev := range script {
-			if patient && (ev[0] == 'C' || ev[0] == 'F') {
+			if patient && (ev[0] == 'C' || ev[0] == 'F' || ev[0] == 'G') {
 				// a new wait begins after this event: forget the previous one
 				i := len(conns)
-				if ev[0] == 'F' {
+				if ev[0] == 'F' || ev[0] == 'G' {
 					i = int(ev[1] - '0')
 				}
 				delete(waitDeadline, i)
@@ -1014,7 +1015,7 @@ func c17Body(script []string, pending, patient bool, proxy ...bool) func(x *sx) 
 				c := world.NewConn(len(conns), srvx.Addr4(172, 16, 0, byte(1+len(conns)), 1700))
 				conns = append(conns, c)
 				w.L.Push(c)
-			case 'F':
+			case 'F', 'G':
 				sess++
 				p := append([]byte{}, full...)
 				c := conns[ev[1]-'0']
@@ -1022,11 +1023,16 @@ func c17Body(script []string, pending, patient bool, proxy ...bool) func(x *sx) 
 				hdr := ref.DecodeHeader(p)
 				body := ref.Obfuscate(hdr, c17Key, p[12:])
 				hdr.Session = sess
+				seg := ref.Packet(hdr, c17Key, body)
 				if useProxy {
-					c.Feed(append(append([]byte{}, c17ProxyLine...), ref.Packet(hdr, c17Key, body)...))
-				} else {
-					c.Feed(ref.Packet(hdr, c17Key, body))
+					seg = append(append([]byte{}, c17ProxyLine...), seg...)
 				}
+				if ev[0] == 'G' {
+					// the segment that carries the packet also carries the beginning of a packet that is never completed: the
+					// server answers, and then waits for the rest with those octets already in its buffer
+					seg = append(seg, partial...)
+				}
+				c.Feed(seg)
 			case 'P':
 				conns[ev[1]-'0'].Feed(partial)
 			case 'T':
@@ -1181,7 +1187,7 @@ func c17Jobs(quick bool) []sjob {
 		// lets a deadline fire after a full packet
 		hasF, dAfterF := false, false
 		for _, ev := range s {
-			if ev[0] == 'F' {
+			if ev[0] == 'F' || ev[0] == 'G' {
 				hasF = true
 			}
 			if ev[0] == 'D' && hasF {
